@@ -15,14 +15,16 @@ PROP = "C10"
 LEVEL = "exploration"
 RULE = ("span universe: all (s,e) with 0<=s<=e<=3 (10 spans; thorough adds the 6 inverted spans). Operands: every "
         "ordered collection with repeats of length 0..2 (exhaustive: 111 collections x 4 relations), plus seeded "
-        "collections of length 3..5; both constructor forms. For every operand pair (all 16 relation pairs): "
+        "collections of length 3..5; both constructor forms, copies with a re-assigned relation, a span set as the span source, and the no-duplicate-check fast path holding repeats. For every operand pair (all 16 relation pairs): "
         "construction, `in` for every universe span, & | - ^ , <= < == != >= >, isdisjoint/issubset/issuperset "
-        "compared with a direct evaluation of the definitions. distinct_nontrivial = distinct (A, relA, B, relB) "
+        "compared with a direct evaluation of the definitions; a sample of operand pairs is also queried by 4 threads at once with forced GIL hand-offs. distinct_nontrivial = distinct (A, relA, B, relB) "
         "operand pairs with both operands non-empty.")
 ASSUMPTIONS = [
     "result sets of & | - ^ are compared as multisets of spans (each qualifying span exactly once); their internal "
     "order is not judged",
-    "force_no_dup_check=True (caller promises no duplicates) is outside the statement",
+    "operands built with force_no_dup_check=True store their spans as given (repeats included); the statement about the "
+    "operators (`each once`) is checked for them as for any other span set, construction-time de-duplication is not",
+    "a span set is immutable: several threads querying one set (first queries overlapping) are ordinary use",
 ]
 SHARD_TIMEOUT = {"quick": 900, "thorough": 3600}
 NSHARDS = 16
@@ -84,6 +86,9 @@ def make_real(spans, rel, form):
         # the span iterable is itself a SpanSet (an exact one, e.g. the result of an operator): the new set de-duplicates
         # with its OWN relation
         return SpanSet(SpanSet(list(spans)), eq_relation=real_rel(rel))
+    if form == "nocheck":
+        # the documented fast path (two sequences, no duplicate check): the spans are stored as given, repeats included
+        return SpanSet([s for s, _ in spans], [e for _, e in spans], force_no_dup_check=True, eq_relation=real_rel(rel))
     if form == "pairs":
         return SpanSet(list(spans), eq_relation=real_rel(rel))
     if form == "gen":
@@ -114,6 +119,8 @@ def check_pair(a_spans, a_rel, b_spans, b_rel, form, u, res):
                   ("two_seq" if form == "pairs" else form))
     if form == "from_set":
         ka, kb = construct_ref(construct_ref(a_spans, "exact"), a_rel), construct_ref(b_spans, b_rel)
+    elif form == "nocheck":
+        ka, kb = list(a_spans), construct_ref(b_spans, b_rel)
     elif form.startswith("copy:"):
         r0 = form.split(":", 1)[1]
         ka, kb = construct_ref(a_spans, r0), construct_ref(b_spans, r0)   # stored spans were de-duplicated with r0
@@ -167,14 +174,62 @@ def check_pair(a_spans, a_rel, b_spans, b_rel, form, u, res):
     return None
 
 
+def concurrent_first_queries(a_spans, a_rel, b_spans, b_rel, u, nthreads=4):
+    """Fresh span sets shared by several threads whose FIRST queries overlap; the line monitor forces a GIL hand-off
+    every second statement of repository code."""
+    import threading
+    A = make_real(a_spans, a_rel, "pairs")
+    B = make_real(b_spans, b_rel, "pairs")
+    ka, kb = construct_ref(a_spans, a_rel), construct_ref(b_spans, b_rel)
+    ina = lambda x: contains_ref(ka, a_rel, x)
+    inb = lambda x: contains_ref(kb, b_rel, x)
+    chain = list(itertools.chain(ka, kb))
+    bad = []
+    barrier = threading.Barrier(nthreads)
+
+    def work(tid):
+        barrier.wait()
+        try:
+            order = list(u)[tid:] + list(u)[:tid]
+            for x in order:
+                if (x in A) != ina(x) and len(bad) < 3:
+                    bad.append(f"thread {tid}: {x} in A -> {not ina(x)}")
+            checks = [("A<=B", lambda: A <= B, all(inb(x) for x in ka)), ("A.isdisjoint(B)", lambda: A.isdisjoint(B), all(not ina(x) for x in kb)),
+                      ("A&B", lambda: Counter(A & B), Counter(set(x for x in chain if ina(x) and inb(x)))),
+                      ("A-B", lambda: Counter(A - B), Counter(set(x for x in chain if ina(x) and not inb(x))))]
+            for name, fn, want in checks[tid % 2::1]:
+                got = fn()
+                if got != want and len(bad) < 3:
+                    bad.append(f"thread {tid}: {name} -> {got}, definition gives {want}")
+        except Exception as e:      # an exception in one reader is a finding as well
+            if len(bad) < 3:
+                bad.append(f"thread {tid}: {type(e).__name__}: {e}")
+    instr.start_case(plan={}, trace=False, yield_every=2)
+    try:
+        ts = [threading.Thread(target=work, args=(t,), name=f"vf:t{t}") for t in range(nthreads)]
+        for t in ts:
+            t.start()
+        for t in ts:
+            t.join(60)
+    finally:
+        instr.stop_case()
+        instr.S.yield_every = 0
+    if bad:
+        return "concurrent-readers", (f"A=SpanSet({list(a_spans)},{a_rel}), B=SpanSet({list(b_spans)},{b_rel}) shared by {nthreads} "
+                                      "threads (first queries overlapping): " + "; ".join(bad))
+    return None
+
+
 def run_shard(spec):
     instr.install(["windpyutils.structures.span_set"])
     res = ShardResult()
     ops, extra, u = operands(spec["tier"], spec["seed"])
     rng = common.rng_for(PROP, spec["seed"], "shard", spec["shard"])
-    forms = ["pairs", "two_seq", "gen", "pairs", "two_seq", "gen", "copy:exact", "copy:overlaps", "copy:partof", "copy:includes", "from_set", "from_set"]
+    forms = ["pairs", "two_seq", "gen", "pairs", "two_seq", "gen", "copy:exact", "copy:overlaps", "copy:partof", "copy:includes", "from_set", "from_set",
+             "nocheck", "nocheck"]
     per_mech = {}
     idx = 0
+    nconc = 0
 
     def do(a, b, exhaustive):
         nonlocal idx
@@ -188,6 +243,17 @@ def run_shard(spec):
             bad = ("operation-raised", f"{type(e).__name__}: {e} for A={a}, B={b}")
         if a[0] and b[0]:
             res.seen((a, b))
+        nonlocal nconc
+        if not bad and len(a[0]) >= 2 and b[0] and nconc < (60 if spec["tier"] == "quick" else 1500) and idx % 7 == 0:
+            nconc += 1
+            res.count("concurrent_reader_runs")
+            res.evaluations += len(u) + 2
+            cb = concurrent_first_queries(a[0], a[1], b[0], b[1], u)
+            if cb:
+                per_mech[cb[0]] = per_mech.get(cb[0], 0) + 1
+                if per_mech[cb[0]] <= 10:
+                    res.violation(cb[0], cb[1], {"case": {"a": [list(a[0]), a[1]], "b": [list(b[0]), b[1]], "form": "pairs",
+                                                          "tier": spec["tier"], "threads": True}})
         if bad:
             per_mech[bad[0]] = per_mech.get(bad[0], 0) + 1
             if per_mech[bad[0]] <= 10:
@@ -226,7 +292,12 @@ def replay(doc):
     c = doc["replay"]["case"]
     a = (tuple(map(tuple, c["a"][0])), c["a"][1])
     b = (tuple(map(tuple, c["b"][0])), c["b"][1])
-    bad = check_pair(a[0], a[1], b[0], b[1], c["form"], universe(c.get("tier", "thorough")), ShardResult())
+    if c.get("threads"):
+        bad = None
+        for _ in range(30):
+            bad = bad or concurrent_first_queries(a[0], a[1], b[0], b[1], universe(c.get("tier", "thorough")))
+    else:
+        bad = check_pair(a[0], a[1], b[0], b[1], c["form"], universe(c.get("tier", "thorough")), ShardResult())
     if bad:
         return True, f"reproduced: {bad[0]}: {bad[1]}"
     return False, "operand pair agrees with the definitions"
